@@ -194,6 +194,17 @@ pub fn run(sc: &C24Scenario) -> Result<Outcome, String> {
                         l
                     };
                     if lines(d) != lines(data) {
+                        // the recorded mixin/modport-default order dependence moves the trailing
+                        // comma inside a modport list: same lines once those are normalised
+                        let norm = |x: &[u8]| {
+                            let mut l = modports_sorted(&String::from_utf8_lossy(x));
+                            l.sort();
+                            l
+                        };
+                        if sc.project.files.values().any(|t| t.contains("mixin ") && t.contains("..")) && norm(d) == norm(data) {
+                            known.get_or_insert(("output-order:mixin-modport-default-order".to_string(), format!("{rel}: only the member order inside modport lists differs from the reference bundle")));
+                            continue;
+                        }
                         viol = Some(("bundle-content".to_string(), format!("{rel}: line multiset differs from the reference bundle")));
                         break;
                     }
@@ -219,7 +230,35 @@ pub fn run(sc: &C24Scenario) -> Result<Outcome, String> {
     Ok(Outcome { violation: viol.or(known), skipped: None, perm_fired: v.perm_fired })
 }
 
-/// The two recorded order dependences of emitted code, recognised by their exact shape: the
+/// Lines of an emitted text with the members of every `modport X ( ... );` list sorted and
+/// stripped of their separating commas.
+fn modports_sorted(t: &str) -> Vec<String> {
+    let mut out: Vec<String> = vec![];
+    let mut inside: Option<Vec<String>> = None;
+    for l in t.lines() {
+        match inside.as_mut() {
+            Some(members) => {
+                if l.trim() == ");" {
+                    members.sort();
+                    out.append(members);
+                    out.push(l.to_string());
+                    inside = None;
+                } else {
+                    members.push(l.trim().trim_end_matches(',').to_string());
+                }
+            }
+            None => {
+                out.push(l.to_string());
+                if l.trim_start().starts_with("modport ") && l.trim_end().ends_with('(') {
+                    inside = Some(vec![]);
+                }
+            }
+        }
+    }
+    out
+}
+
+/// The recorded order dependences of emitted code, recognised by their exact shape: the
 /// emitted file consists of the same blocks (generic specialisations) in another order and
 /// its source declares a generic; or it differs only in the member order inside `modport`
 /// lists and its source mixes in another interface and has a modport default.
@@ -247,33 +286,28 @@ fn known_order_shape(rel: &str, got: &[u8], want: &[u8], project: &Project) -> O
     if src.contains("::<") && blocks(&a) == blocks(&b) {
         return Some("generic-instance-order");
     }
-    let modports_sorted = |t: &str| {
-        let mut out: Vec<String> = vec![];
-        let mut inside: Option<Vec<String>> = None;
-        for l in t.lines() {
-            match inside.as_mut() {
-                Some(members) => {
-                    if l.trim() == ");" {
-                        members.sort();
-                        out.append(members);
-                        out.push(l.to_string());
-                        inside = None;
-                    } else {
-                        members.push(l.trim().trim_end_matches(',').to_string());
-                    }
-                }
-                None => {
-                    out.push(l.to_string());
-                    if l.trim_start().starts_with("modport ") && l.trim_end().ends_with('(') {
-                        inside = Some(vec![]);
-                    }
-                }
-            }
-        }
-        out
-    };
     if src.contains("mixin ") && src.contains("..") && modports_sorted(&a) == modports_sorted(&b) {
         return Some("mixin-modport-default-order");
+    }
+    // `[<digits>-1:0]` -> `[#-1:0]`
+    let widths_masked = |t: &str| {
+        let mut out = String::new();
+        let mut rest = t;
+        while let Some(i) = rest.find('[') {
+            out.push_str(&rest[..=i]);
+            rest = &rest[i + 1..];
+            let digits = rest.chars().take_while(|c| c.is_ascii_digit()).count();
+            if digits > 0 && rest[digits..].starts_with("-1:0]") {
+                out.push('#');
+                rest = &rest[digits..];
+            }
+        }
+        out.push_str(rest);
+        out
+    };
+    let untyped_let = src.lines().any(|l| l.trim_start().strip_prefix("let ").is_some_and(|r| r.split('=').next().is_some_and(|lhs| !lhs.contains(':'))));
+    if src.contains("param ") && untyped_let && widths_masked(&a) == widths_masked(&b) {
+        return Some("inferred-width-of-overridden-parameter");
     }
     None
 }
@@ -300,6 +334,20 @@ pub fn gen_project(seed: u64) -> Project {
                 }
             }
         }
+    }
+    // A generic wrapper in one file instantiating a plain module of another file whose body has
+    // inferred types: whichever file is analysed first elaborates the plain module first.
+    if rng.chance(1, 4) {
+        g.project.files.insert("src/sub_plain.veryl".into(), "module SubPlain (\n    i_d: input  logic<8>,\n    o_d: output logic<8>,\n) {\n    let t: logic<8> = i_d;\n    let u = t;\n    assign o_d = u;\n}\n".into());
+        g.project.files.insert("src/wrap_g.veryl".into(), "module WrapG::<W: u32> (\n    i_d: input  logic<8>,\n    o_d: output logic<8>,\n    o_w: output logic<W>,\n) {\n    inst u_sub: SubPlain (\n        i_d: i_d,\n        o_d: o_d,\n    );\n    assign o_w = 0;\n}\n".into());
+        g.project.files.insert("src/wrap_top.veryl".into(), "module WrapTop (\n    i_d: input  logic<8>,\n    o_d: output logic<8>,\n    o_w: output logic<4>,\n) {\n    inst u_wrap: WrapG::<4> (\n        i_d: i_d,\n        o_d: o_d,\n        o_w: o_w,\n    );\n}\n".into());
+    }
+    // A parameterised module with an inferred-type declaration, instantiated with an overridden
+    // parameter from another file: the resolved type of the declaration must not be the one of
+    // whichever elaboration ran last.
+    if rng.chance(1, 5) {
+        g.project.files.insert("src/p_sub.veryl".into(), "module PSub #(\n    param W: u32 = 4,\n) (\n    a: input  logic<W + 1>,\n    o: output logic<W + 1>,\n) {\n    let t = a;\n    assign o = t;\n}\n".into());
+        g.project.files.insert("src/p_top.veryl".into(), "module PTop (\n    a: input  logic<9>,\n    o: output logic<9>,\n) {\n    inst u: PSub #(\n        W: 8,\n    ) (\n        a: a,\n        o: o,\n    );\n}\n".into());
     }
     // A diagnostics limit makes "which diagnostics survive" a function of the processing
     // order if anything but errors is counted against it.
